@@ -7,6 +7,7 @@ import (
 	"fmt"
 	"net"
 	"runtime"
+	"strings"
 	"sync"
 	"sync/atomic"
 	"testing"
@@ -209,7 +210,7 @@ func c16BridgeMain(t *testing.T) {
 	run.Floor("runs_with_traffic_reported", 100)
 	scope := []string{"tunnox-core/internal/protocol/session/tunnel", "tunnox-core/internal/stream"}
 
-	for trial := 0; trial < n && run.Violations() < 20; trial++ {
+	for trial := 0; trial < n && run.Violations() < 20 && run.Counter("leak_violations") < 3; trial++ {
 		path := paths[r.Intn(len(paths))]
 		k := ks[r.Intn(len(ks))]
 		s2t := c16Sizes[r.Intn(len(c16Sizes))]
@@ -301,7 +302,7 @@ func c16BridgeMain(t *testing.T) {
 			run.Count("watchdog", 1)
 			continue
 		}
-		leaked := snap.Leaked(scope, nil, 7*time.Second) // the periodic reporter's own final-report timeout is 5 s
+		leaked := snap.Leaked(scope, nil, 2*time.Second)
 		run.Max("max_concurrent_closers", int64(maxIn))
 		overlap := maxIn >= 2
 		if overlap {
@@ -319,7 +320,8 @@ func c16BridgeMain(t *testing.T) {
 		run.Distinct(fmt.Sprintf("%s|K=%d|s2t=%s|t2s=%s|overlap=%v", path, k, cls(tgtGot.Load()), cls(srcGot.Load()), overlap))
 		if len(leaked) > 0 {
 			sum := vk.FrameSummary(leaked)
-			run.Violation("C16:bridge|goroutine-left|"+sum[0], map[string]any{"case": desc, "frames": sum, "stack": leaked[0].Stack})
+			run.Violation("C16:bridge|goroutine-left|"+c16LeakFn(sum[0]), map[string]any{"case": desc, "frames": sum, "stack": leaked[0].Stack})
+			run.Count("leak_violations", 1) // after 3 the test stops: every further trial would wait the full poll interval
 		}
 		if cloud.maxInGet.Load() >= 2 {
 			run.Count("runs_with_two_reports_in_flight", 1)
@@ -397,6 +399,15 @@ func c16BridgeMain(t *testing.T) {
 		}
 		if l := snap.Leaked(scope, nil, time.Second); len(l) > 0 {
 			run.Violation("C16:bridge|goroutine-left-after-post-close-calls", map[string]any{"case": desc, "frames": vk.FrameSummary(l), "stack": l[0].Stack})
+			run.Count("leak_violations", 1) // after 3 the test stops: every further trial would wait the full poll interval
 		}
 	}
+}
+
+// c16LeakFn strips the (varying) goroutine state from a vk.FrameSummary entry.
+func c16LeakFn(s string) string {
+	if i := strings.Index(s, "tunnox-core/"); i >= 0 {
+		return s[i:]
+	}
+	return s
 }
